@@ -102,7 +102,7 @@ class Logger:
 
     def event(self, op, a=0, ret=None, exc="", undo_bits=-1, ranks=None):
         hidden = self.env.full_game.get_values()
-        ev = {"op": op, "a": int(a), "exc": exc, "ret_obs": [], "ret_gap": [0, 0], "ret_done": -1, "ret_info": -1,
+        ev = {"op": op, "a": int(a), "exc": exc, "solver": "", "ret_obs": [], "ret_gap": [0, 0], "ret_done": -1, "ret_info": -1,
               "undo_bits": undo_bits, "ranks": ranks or [], "lin_mask": [], "lin_obs": []}
         ev["env"] = self.env_state()
         if ret is not None and not exc:
@@ -201,13 +201,20 @@ def drive(lg: Logger, rng, plan, solver=None, solver_name=""):
                     ranks[a] = r
             else:
                 ranks = [-1] * na
-            before = lg.raw()
-            gcount = len(lg.counting.games)
-            hid_id = id(env.full_game)
-            choice, exc = call(solver.next_step, env)
-            same = lg.raw() == before and len(lg.counting.games) == gcount and id(env.full_game) == hid_id
-            events.append(lg.event("solve", choice if choice is not None else 0, None, exc, undo_bits=1 if same else 0, ranks=ranks))
-            if not exc and choice in valid and (len(item) < 2 or item[1]):
+            choice = None
+            for sname, sobj in solver.items():       # every built-in solver is queried at this state
+                before = lg.raw()
+                gcount = len(lg.counting.games)
+                hid_id = id(env.full_game)
+                ch, exc = call(sobj.next_step, env)
+                same = lg.raw() == before and len(lg.counting.games) == gcount and id(env.full_game) == hid_id
+                ev = lg.event("solve", ch if ch is not None else 0, None, exc, undo_bits=1 if same else 0, ranks=ranks)
+                ev["solver"] = sname
+                events.append(ev)
+                if sname == solver_name and not exc:
+                    choice = ch
+            exc = ""
+            if choice is not None and choice in valid and (len(item) < 2 or item[1]):
                 ret, exc2 = call(env.step, choice)
                 if not exc2:
                     chosen.append(choice)
@@ -251,9 +258,12 @@ def make_plan(rng, n, kind, nact):
             plan.append(("solve", True))
         plan.append(("reset",))
         for _ in range(rng.randint(1, nact)):
-            plan.append(("solve", rng.random() < 0.7))
-            if rng.random() < 0.3:
+            plan.append(("solve", rng.random() < 0.5))
+            r = rng.random()
+            if r < 0.45:
                 plan.append(("step", None))
+            elif r < 0.6:
+                plan.append(("unstep", None))
     elif kind == "linear":
         for _ in range(rng.randint(1, 2)):
             for _ in range(nact + 1):
@@ -373,7 +383,7 @@ def main():
                 grid = 2.0 ** 16 / D.pow2_at_least(4 * mx)
                 tol, tol2 = 1, n + 2
             lg = Logger(n, mode, scale, grid, gapname, env, counting, lin)
-            solver = SOLVERS[solver_name](ModelInstance(seed=a.seed + tid)) if solver_name else None
+            solver = {s: SOLVERS[s](ModelInstance(seed=a.seed + tid)) for s in solvers} if solver_name else None
             plan = make_plan(rng, n, a.kind, nact)
             try:
                 events = drive(lg, rng, plan, solver, solver_name)
